@@ -10,13 +10,14 @@ EXPLANATION = ('Value-flow normal forms of NUTSChain::new (constants, sentinel),
                'eps = exp(mu - sqrt(m)/gamma h_bar), eta\' = m^-kappa, eps_bar = exp((1-eta\') ln eps_bar + eta\' ln eps), else eps := eps_bar), and a crate-wide '
                'write-set analysis of the adaptation fields (who writes epsilon, epsilon_bar, m, n_discard, and under which guard) which gives the freeze: once m > n_discard, '
                'eps = eps_bar and neither changes. Positivity beyond "eps is an exp(.)" and realised acceptance rates are not decided.')
-FLOORS = {'obligations': 39}   # counted on the reference tree; fewer instantiated obligations is reported, never passed silently
+FLOORS = {'obligations': 42}   # counted on the reference tree; fewer instantiated obligations is reported, never passed silently
 TECHNIQUE = 'value-flow normal form vs specification table + crate-wide field write-set (guarded writers) analysis'
 CH = 'nuts::NUTSChain'
 
 
 def run(ctx):
     consts(ctx)
+    runner_ctor(ctx)
     init_chain(ctx)
     fre(ctx)
     tail(ctx)
@@ -41,6 +42,26 @@ def consts(ctx):
     for f, v in exp.items():
         ctx.eq('C04.const.' + f, A, f, fld(ret, f), v, sp=b['sp'], why='dual-averaging constants / initial state of Hoffman & Gelman Algorithm 6 (epsilon = -1 is the "not yet initialised" sentinel)')
     ctx.eq('C04.const.delta', A, 'target_accept_p', fld(ret, 'target_accept_p'), S('target_accept_p'), sp=b['sp'], why='requested acceptance statistic stored as given')
+
+
+def runner_ctor(ctx):
+    """NUTS::new hands the requested acceptance rate (and the target) to every chain unchanged"""
+    A = 'NUTS::new'
+    b = ctx.anchor(A, name='new', self_head='nuts::NUTS', container='inherent')
+    if b is None:
+        ctx.unknown('C04.fwd.delta', A, 'anchor', why='anchor not found')
+        return
+    ev = ctx.evaluate(b)
+    loops = [ls for ls in ev.vf.loops if getattr(ls, 'result_term', None) is not None and T.is_app(ls.result_term, 'adt:nuts::NUTSChain') and not ls.ctx]
+    if len(loops) != 1:
+        ctx.unknown('C04.fwd.delta', A, 'target_accept_p', why='per-chain construction loop not recognised (%d candidate loops)' % len(loops), sp=b['sp'])
+        return
+    rt = loops[0].result_term
+    d = fld(rt, 'target_accept_p')
+    ctx.eq('C04.fwd.delta', A, 'target_accept_p', d, S('target_accept_p'), sp=b['sp'],
+           why='the multi-chain constructor must adapt towards the acceptance rate the caller asked for (any value in (0,1)), exactly as a NUTSChain built directly does')
+    for f_, v in (('epsilon', N(-1)), ('m', T.ZERO)):
+        ctx.eq('C04.fwd.' + f_, A, f_, fld(rt, f_), v, sp=b['sp'], why='chains start un-initialised (sentinel step size, counter 0) as NUTSChain::new builds them')
 
 
 def init_chain(ctx):
